@@ -54,7 +54,7 @@ func TestRegressionServicePort0(t *testing.T) {
 	if err != nil {
 		t.Fatalf("harness: %v", err)
 	}
-	defer env.stop()
+	defer env.stop(t)
 	if err := env.canaryFull(); err != nil {
 		t.Fatalf("SIG=C06/service-canary VERIF-VIOLATION before the plan: %v", err)
 	}
